@@ -7,23 +7,38 @@ import (
 	"bytes"
 	"fmt"
 	"reflect"
+	"regexp"
 	"strings"
 
 	"github.com/pion/rtcp"
 )
 
+// addrRe matches what a Go heap or stack address looks like when printed with %p / %v on linux/amd64
+// (0xc000… with ten hex digits).  A text that contains the address of the object it describes is still
+// the same on every call on that object, which is all C18 asks for; the twin the oracles compare with
+// lives at another address, so such tokens are neutralised before texts are compared.  (A red-team
+// candidate - TransportLayerCC.String printing its element pointers - showed the need; DESIGN §10.)
+var addrRe = regexp.MustCompile(`0xc[0-9a-f]{9}\b`)
+
+func stripAddrs(s string) string {
+	if !strings.Contains(s, "0xc") {
+		return s
+	}
+	return addrRe.ReplaceAllString(s, "0xADDR")
+}
+
 func errString(e error) string {
 	if e == nil {
 		return "<nil>"
 	}
-	return fmt.Sprintf("%T:%s", e, e.Error())
+	return stripAddrs(fmt.Sprintf("%T:%s", e, e.Error()))
 }
 
 func panicString(v interface{}) string {
 	if e, ok := v.(error); ok {
-		return "panic:" + e.Error()
+		return "panic:" + stripAddrs(e.Error())
 	}
-	return "panic:" + fmt.Sprint(v)
+	return "panic:" + stripAddrs(fmt.Sprint(v))
 }
 
 // render turns a raw result into its canonical text.
@@ -52,7 +67,7 @@ func render(r *opResult) string {
 		case ptInt:
 			fmt.Fprintf(&sb, "int:%d;", p.n)
 		case ptStr:
-			fmt.Fprintf(&sb, "str:%q;", p.s)
+			fmt.Fprintf(&sb, "str:%q;", stripAddrs(p.s))
 		case ptErr:
 			sb.WriteString("err:" + errString(p.err) + ";")
 		case ptPanic:
@@ -157,8 +172,15 @@ func checkRetained(s *RunSpec, w *world, res [][]opResult, worldName string, out
 			if !r.done || r.skipped {
 				continue
 			}
+			if r.changedEarly {
+				out = append(out, mkViol(s, w, "O5", "e: a returned value changed after it was returned", worldName, t, i, r.earlyExp, r.earlyAct,
+					"returned value vs copy taken at return, compared just before the owner's next caller-side edit of the packet"))
+			}
 			for pi := range r.parts {
 				p := &r.parts[pi]
+				if p.released {
+					continue
+				}
 				switch p.kind {
 				case ptBytes:
 					if p.b != nil && !bytes.Equal(p.b[:cap(p.b)], p.bc[:cap(p.bc)]) {
@@ -352,6 +374,9 @@ func stashFrom(s *RunSpec, w *world, runIdx int) {
 			}
 			for pi := range res.parts {
 				p := &res.parts[pi]
+				if p.released {
+					continue
+				}
 				if (p.kind == ptBytes && p.b != nil && len(p.b) > 0) || (p.kind == ptStr && len(p.s) > 0) {
 					cands = append(cands, cand{t, i, pi})
 				}
@@ -387,7 +412,8 @@ func stashFrom(s *RunSpec, w *world, runIdx int) {
 		p := &w.res[c.t][c.i].parts[c.p]
 		e := stashEntry{run: runIdx, task: c.t, op: c.i, opName: opNames[op.K], kind: kindName(s, w, op)}
 		if p.kind == ptBytes {
-			e.b, e.bc = p.b, p.bc
+			// baseline = the value as it is at the end of its run (in-run changes were judged by the in-run check)
+			e.b, e.bc = p.b, copyBytesPhys(p.b)
 		} else {
 			e.isStr = true
 			e.s = p.s
